@@ -202,6 +202,8 @@ def base_specs(draw, tier):
     kind = draw(st.integers(0, 9))
     # mostly letters; sometimes digits or punctuation (terminals whose upper-case form is the terminal itself; pda_to_cfg produces such grammars)
     terms = draw(st.sampled_from([("a", "b"), ("a", "b"), ("a", "b"), ("a",), ("0", "1"), ("a", "+"), ("(", ")")]))
+    if kind == 0 and draw(st.booleans()):
+        return draw(GC.numbered_cfg_specs(terms=terms))
     if kind == 0:
         # many variables: reach the len(V) >= 26 branch of the fresh-variable helper
         n = draw(st.integers(23, 28))
@@ -228,14 +230,14 @@ def base_specs(draw, tier):
 
 @st.composite
 def full_cases(draw, tier):
-    return {"cfg": draw(base_specs(tier))}
+    return {"cfg": draw(base_specs(tier)), "id_offset": draw(st.integers(0, 14))}
 
 
 @st.composite
 def phase_cases(draw, tier):
     spec = draw(base_specs(tier))
     hint = draw(st.sampled_from(["S", "S0", "Z", spec["V"][0], spec["V"][-1], "S'"]))
-    return {"cfg": spec, "phase": draw(st.integers(1, 5)), "hint": hint}
+    return {"cfg": spec, "phase": draw(st.integers(1, 5)), "hint": hint, "id_offset": draw(st.integers(0, 14))}
 
 
 CLAUSES = [
